@@ -1,5 +1,6 @@
 (** C11.3 -- the EXECUTABLE horizon-T model of a model containing a SolvedBlock, used by the correspondence check: the solved
-    block enters the outer DAG as a block whose (dense) Jacobian is the inner general-equilibrium solve.  Whatever the nested
+    block enters the outer DAG as a block whose Jacobian is the inner general-equilibrium solve in operator form (entries through the dense G_U are
+    dense, an inner output that no inner unknown affects keeps its sparse Jacobian -- as combine([U_Z, block]).jacobian returns them).  Whatever the nested
     computation returns: the inner solve satisfied the inner packed system, the solved block carries exactly its outputs, and
     the outer result is the outer accumulation (no outer unknowns) or an outer solve satisfying the outer packed system.
     The abstract identity nested = flat (C11.1) is exact operator algebra; at a finite horizon the two evaluation orders
@@ -15,7 +16,7 @@ Theorem nested_jacobian_sound : forall T N pre post inner iU iTg iIns iOuts U Tg
     ge_solveT T N inner iU iTg iIns iOuts = Some ri
     /\ mmul (ge_HU T N inner iU iTg) Xi = mopp (ge_HZ T N inner iIns iTg)
     /\ c_outs opr sb = iOuts /\ c_ins opr sb = iIns
-    /\ (forall o m, c_J opr sb o m = Dn (nth (index_of o iOuts) (nth (index_of m iIns) (ge_out ri) []) []))
+    /\ (forall o m, c_J opr sb o m = ge_entry T (map (totE T N inner) iU) (map (fun row => nth (index_of m iIns) row []) (ge_GU ri)) (totE T N inner m) o)
     /\ (U = [] -> G = map (fun z => map (fun o => to_dense T (totE T N (pre ++ sb :: post) z o)) outs) Zs)
     /\ (U <> [] -> exists r X, ge_solveT T N (pre ++ sb :: post) U Tg Zs outs = Some r /\ G = ge_out r
                      /\ mmul (ge_HU T N (pre ++ sb :: post) U Tg) X = mopp (ge_HZ T N (pre ++ sb :: post) Zs Tg)).
